@@ -52,8 +52,9 @@ class Stream:
         sb = nchans * nbits // 8
         for i, ln in enumerate(lens_bytes):
             p = d / f"{name}_{i}.fil"
-            h = fixtures.encode_header(fixtures.default_header(nchans, nbits, tsamp=tsamp,
-                                                               tstart=50000.0 + (at // max(sb, 1)) * tsamp / 86400))
+            h = fixtures.encode_header(fixtures.default_header(
+                nchans, nbits, tsamp=tsamp, tstart=50000.0 + (at // max(sb, 1)) * tsamp / 86400,
+                extra={"rawdatafile": "scan_" + "9" * (1 + 2 * i) + ".fil"}))   # header lengths differ per file
             p.write_bytes(h + raw[at:at + ln])
             self.files.append(list(raw[at:at + ln]))
             self.names.append(str(p))
